@@ -1,5 +1,5 @@
 (* C20 property theorems: statements only; every proof is [exact lemma]. *)
-From Gv Require Import lib.Bytes lib.Json C20.Model C20.Spec C20.Proofs C20.Proofs2 C20.Proofs3.
+From Gv Require Import lib.Bytes lib.Json C20.Model C20.Spec C20.Legacy C20.Proofs C20.Proofs2 C20.Proofs3 C20.Proofs4.
 From Coq Require Import List NArith Bool Permutation.
 Import ListNotations.
 
@@ -189,3 +189,54 @@ Theorem c20_deep_shape : forall em p,
   wf_plan p -> forall d j, marshal em p d = Ok j -> conforms em p d j.
 Proof. exact deep_shape. Qed.
 Print Assumptions c20_deep_shape.
+
+(* ---- merging the results of follow-up calls (mergeWithPath), after two repairs ---- *)
+
+(* HISTORICAL (json_builder.go before the repair of resolver-under-list-wrapper, Legacy.v): the targets of a
+   field resolver below a nested list ([[T]]) were not found -- the whole fetch failed with "length of values
+   doesn't match"; the repaired mergeWithPath merges the same input *)
+Theorem c20_merge_nested_list_v0_refuted :
+  exists base resolved path,
+    merge_with_path_v0 base resolved path = Err ELenMismatch /\
+    merge_with_path base resolved path None =
+    Ok (JObj [(x_author, JObj [(x_prefs, JArr [JArr [JObj [(x_kind, JStr x_1); (x_tp, JNum x_1)];
+                                                     JObj [(x_kind, JStr x_2); (x_tp, JNum x_2)]]])])]).
+Proof. exact nested_list_v0_refuted_proof. Qed.
+Print Assumptions c20_merge_nested_list_v0_refuted.
+
+(* repaired: list nesting is transparent for the targets of a merge, at every depth ... *)
+Theorem c20_merge_nested_list : forall f l r, flat_items f (JArr l :: r) = flat_items f (l ++ r).
+Proof. exact nested_list_count. Qed.
+Print Assumptions c20_merge_nested_list.
+
+(* ... and once the length check of mergeWithPath has passed, every resolved value is assigned to a
+   target: the assignment cannot fail, leaves no value over and keeps one item per item *)
+Theorem c20_merge_assigns_all : forall elem rest targets vals n,
+  flat_items (flat_count rest) targets = Ok n -> length vals = n ->
+  exists us, upd_items (flat_update elem rest) targets vals = Ok (us, []) /\ length us = length targets.
+Proof. exact merge_assigns_all. Qed.
+Print Assumptions c20_merge_assigns_all.
+
+(* HISTORICAL (before the repair of entity-batch-mixed-types): the results of a follow-up call of an entity
+   lookup were spread over all entities of the batch, also those of another type (position not in idx) *)
+Theorem c20_entity_followup_v0_refuted :
+  exists base resolved path idx pos r,
+    ~ In pos idx /\
+    merge_with_path_v0 base resolved path = Ok r /\
+    (exists l, jget name_entities base = Some (JArr l) /\
+               exists l', jget name_entities r = Some (JArr l') /\ nth_error l' pos <> nth_error l pos).
+Proof. exact entity_followup_v0_refuted_proof. Qed.
+Print Assumptions c20_entity_followup_v0_refuted.
+
+(* repaired: a follow-up call (@requires field, field resolver) of an entity lookup only touches the
+   entities at the positions of its own entity type; every other entity, and the length of _entities,
+   is unchanged -- for ALL batches, results and paths *)
+Theorem c20_entity_followup_untouched : forall bo resolved p' idx r items,
+  p' <> [] ->
+  obj_get name_entities bo = Some (JArr items) ->
+  merge_with_path (JObj bo) resolved (name_entities :: p') (Some idx) = Ok r ->
+  exists ro items', r = JObj ro /\ obj_get name_entities ro = Some (JArr items') /\
+    length items' = length items /\
+    forall pos, ~ In pos idx -> nth_error items' pos = nth_error items pos.
+Proof. exact entity_followup_untouched. Qed.
+Print Assumptions c20_entity_followup_untouched.
